@@ -118,8 +118,8 @@ CHECKS["C01"] = dict(
 
 CHECKS["C09"] = dict(
     pkg="props/c09", level="exploration", gomaxprocs=1,
-    rule="C02-style exchange between two real instances run twice: alone, and with a scripted third peer that, before generated delivery steps (0-8) or after the exchange, sends responses carrying the live request id: any of the 14 statuses, 0-3 metadata entries over the DAG's CIDs with any action, 0-2 genuine blocks, and extensions from {trigger/error, trigger/update, trigger/pause, other}. The requestor registers a response hook and a block hook that terminate / update / pause on seeing a trigger extension and record the peer they were called with. Oracle (differential): no hook is ever invoked with the third peer's id; nothing is sent to the third peer; the sequence of request messages (types) sent to the genuine responder is identical; delivered nodes, error multiset, stored blocks, channel closure and block-hook invocations are identical to the run without the intruder. Non-trivial: an intrusion arrives while the request's channels are still open.",
-    assumptions=_SIM_ASSUME + ["response-hook invocation counts are not compared (they depend on how the responder batches messages)"],
+    rule="C02-style exchange between two real instances run twice: alone, and with a scripted third peer that, before generated delivery steps (0-8) or after the exchange, sends responses carrying the live request id: any of the 14 statuses, 0-3 metadata entries over the DAG's CIDs with any action, 0-2 genuine blocks, and extensions from {trigger/error, trigger/update, trigger/pause, other}. The requestor registers a response hook and a block hook that terminate / update / pause on seeing a trigger extension and record the peer they were called with. Oracle (differential): no hook is ever invoked with the third peer's id; nothing is sent to the third peer; the sequence of request messages (types) sent to the genuine responder is identical; delivered nodes, error multiset, stored blocks, channel closure and block-hook invocations are identical to the run without the intruder. Non-trivial: an intrusion arrives while the request's channels are still open. Second scenario: 1-3 requests at once (own dedup scope and store each), some pausing themselves from the block hook or held by a responder-side storage gate, a generated list of deliveries, requestor API pause / unpause and third-peer messages that name one or SEVERAL of the issued request ids in one message (any of 8 statuses, trigger extensions, 0-3 metadata entries and blocks); run with and without the third peer's messages (they are delivered atomically, so the rest of the schedule is identical): for requests still listed by the requestor when such a message arrives, no response hook is invoked with the third peer as sender and nothing is sent to it; every request's delivered nodes, errors, channel closure and stored blocks, and the number of cancel / update requests sent to the genuine responder, are identical. Cases in two known-finding classes of C06 (paused-and-resumed requests) are excluded and counted.",
+    assumptions=_SIM_ASSUME + ["a response naming a request that has already ended reaches the hooks whoever sends it (also the genuine responder's late messages do): it cannot affect a request and is not judged", "response-hook invocation counts are not compared (they depend on how the responder batches messages)"],
     quick=dict(shards=2, timeout=400), thorough=dict(shards=16, timeout=3000),
     level_text="Differential random testing: every case is its own control. One defect (hooks before the peer filter) found and fixed.",
     level_note="Trusts the honest run as the reference; both runs use the same deterministic delivery order.",
